@@ -26,7 +26,33 @@ OPS = [
     ('ptr', r'\.add\(', '.sub('), ('ptr', r'\.sub\(', '.add('),
     ('del', None, None),
 ]
+# second operator set (MUTSWEEP_OPS=2): copy-paste slips - a sibling identifier, a flipped predicate, swapped bounds,
+# a different-but-similar std method, an assignment deleted
+OPS2 = [
+    ('pred', r'\.is_some\(\)', '.is_none()'), ('pred', r'\.is_none\(\)', '.is_some()'), ('pred', r'\.is_ok\(\)', '.is_err()'), ('pred', r'\.is_err\(\)', '.is_ok()'),
+    ('pred', r'(?<![!\w.])(\w+(?:\.\w+)*)\.is_empty\(\)', r'!\1.is_empty()'),
+    ('ord', r'Ordering::Less', 'Ordering::Greater'), ('ord', r'Ordering::Greater', 'Ordering::Less'), ('ord', r'Ordering::Equal', 'Ordering::Less'),
+    ('bound', r'\bIncluded\(', 'Excluded('), ('bound', r'\bExcluded\(', 'Included('), ('bound', r'\.\.=', '..'),
+    ('sat', r'saturating_sub\(', 'wrapping_sub('), ('sat', r'saturating_add\(', 'wrapping_add('), ('sat', r'checked_add\(', 'checked_sub('),
+    ('szal', r'size_of::<', 'align_of::<'), ('szal', r'\.size\(\)', '.align()'), ('szal', r'\.align\(\)', '.size()'),
+    ('sib', r'\bold_layout\b', 'new_layout'), ('sib', r'\bnew_layout\b', 'old_layout'), ('sib', r'\bold_size\b', 'new_size'), ('sib', r'\bnew_size\b', 'old_size'),
+    ('sib', r'\bstart\b', 'end'), ('sib', r'\bend\b', 'start'), ('sib', r'\bsrc\b', 'dst'), ('sib', r'\bdst\b', 'src'),
+    ('sib', r'\btail_start\b', 'tail_len'), ('sib', r'\btail_len\b', 'tail_start'), ('sib', r'\bidx\b', 'del'), ('sib', r'\bdel\b', 'idx'),
+    ('sib', r'\bold_len\b', 'len'), ('sib', r'\bother_len\b', 'len'), ('sib', r'\bused_cap\b', 'needed_extra_cap'), ('sib', r'\bneeded_extra_cap\b', 'used_cap'),
+    ('sib', r'\bself\.len\b(?!\()', 'self.cap'), ('sib', r'\.len\(\)', '.capacity()'), ('sib', r'\.capacity\(\)', '.len()'), ('sib', r'\.cap\(\)', '.len()'),
+    ('sib', r'\bnext_back\(', 'next('), ('sib', r'\bsplit_at\b', 'split_at'), ('sib', r'\.ptr\b(?!\()', '.data'), ('sib', r'\.data\b(?!\()', '.ptr'),
+    ('sib', r'\bcopy_nonoverlapping\(', 'copy('), ('sib', r'ptr::copy\(', 'ptr::copy_nonoverlapping('),
+    ('swap', r'\b(copy(?:_nonoverlapping)?)\(([^,()]+(?:\([^()]*\))?[^,()]*), ([^,()]+(?:\([^()]*\))?[^,()]*),', r'\1(\3, \2,'),
+    ('shift', r' \* 2\b', ' * 1'), ('shift', r' / 2\b', ' / 1'), ('shift', r' << ', ' >> '), ('shift', r' >> ', ' << '),
+    ('const', r'\b2\b', '3'), ('const', r'\b8\b', '4'), ('const', r'\b16\b', '8'),
+    ('del', None, None),
+]
+if os.environ.get('MUTSWEEP_OPS') == '2':
+    OPS = OPS2
 DEL = re.compile(r'^\s+(self|this|ptr|mem|core|other|slot|guard|vec|string)[\w.:<>]*\(.*\);\s*$')
+if os.environ.get('MUTSWEEP_OPS') == '2':
+    # assignments / compound assignments (not `let`): the statement is dropped
+    DEL = re.compile(r'^\s+(\*?[\w.]+(?:\[[^\]]*\])?) (=|\+=|-=) [^=].*;\s*$')
 
 
 def code_lines(path):
@@ -86,7 +112,7 @@ def gen(outdir, n, seed):
             code = old.split('//')[0]
             ms = list(re.finditer(pat, code))
             m = ms[k]
-            new = old[:m.start()] + rep + old[m.end():]
+            new = old[:m.start()] + (m.expand(rep) if '\\' in rep else rep) + old[m.end():]
         mod = lines[:i] + ([] if new is None else [new]) + lines[i + 1:]
         tmp = os.path.join(outdir, 'tmp.rs')
         with open(tmp, 'w') as fh:
